@@ -93,3 +93,13 @@ check('C20', 'proof',
       "split conserving each chemical); energy side havoc'ed; partition/phase_fraction/wrappers run on the C09 kernel contracts (L0). A small grid on the real solvers is mode B "
       "(bounded, not counted). Known finding F-C20-5 printed as KNOWN-FINDING; 4 defects repaired.",
       "deductive: sidecar contracts + VC generation by symbolic execution of the real functions, z3 discharge, native replay", "DESIGN.md 4/C20")
+check('C11', 'proof',
+      "For every enumerated structure (1-3 phases, 2-3 chemicals, every DictionaryView method, 13 units, all operation histories of length <= 2 (quick) / <= 3 (thorough) over "
+      "14 operations plus selected longer ones) and for all real flows, T, P, written values and all positive molar-volume functions, the real code is symbolically executed "
+      "and z3 proves on every path that mass = MW*mol, vol = 1000*V(phase,T,P)*mol at the LIVE conditions, totals are the sums of the views, write-then-read is the identity "
+      "(or the fixed factor across units), setting a total keeps composition, foreign dimensions are rejected and nothing else changes - and that this holds again after "
+      "T, P, phase(s), link/unlink, copy_like and package resets.",
+      "Mode S: structure bounded by the configurations, values unbounded. A-real; A-models (pure-component V positive uninterpreted functions planted on Chemical._V, real "
+      "ideal mixing rule); A-pint (unit factors are the pint floats, compared with textbook constants); distinct T/P values differ by >= 1e-6 (library tolerance 1e-12); a link "
+      "requires the same package. MW concrete at stream level. Known findings F-C11-4a..c (linked MultiStreams growing a phase) printed as KNOWN-FINDING; 3 defects repaired.",
+      "deductive: sidecar contracts + VC generation by symbolic execution of the real functions (QF_NRA), z3 discharge, native replay", "DESIGN.md 4/C11")
